@@ -491,6 +491,8 @@ class Interp:
         if type(f).__name__ == "ScriptFunction" and f.qualified_name.startswith("__torch__.pydrobert.torch"):
             # TorchScript-compiled repo function: the verified text is its Python source (assumption: same semantics)
             modname, _, fn = f.qualified_name[len("__torch__."):].rpartition(".")
+            if "%s.%s" % (modname, fn) in self.contracts:
+                return self.contracts["%s.%s" % (modname, fn)](self, list(args), kwargs)
             return self.call_def(source.find_def(modname, fn), importlib.import_module(modname), args, kwargs)
         if isinstance(f, (types.FunctionType,)) and f.__module__ and f.__module__.startswith("pydrobert.torch"):
             target = getattr(f, "__wrapped__", f)
